@@ -231,6 +231,11 @@ def generate():
         S("provision_line_suffix_" + flag.lower(), suf, f)
         S("provision_line_module_" + flag.lower(), module, f)
     provision_line_order = [env[flag] for flag, _, _ in plines]
+    # writers of status.tag.tmp serialized (C16 / F11): a Mutex guard is taken in write_provision_state
+    # before the temp file is written (1) or not (0); a theorem pins the 1
+    wbody = regex_str(f, r"async fn write_provision_state\b.*?\{(.*?)\n\}", "write_provision_state body")
+    wm = re.search(r"Mutex<.*?\.lock\(\).*?STATUS_TAG_TMP_FILE_NAME", strip_comments(wbody), flags=re.S)
+    I("provision_status_tag_writers_serialized", 1 if wm else 0, f)
     f = "proxy_agent/src/shared_state.rs"
     S("unknown_status_message", rust_str(f, "UNKNOWN_STATUS_MESSAGE"), f)
 
